@@ -190,6 +190,35 @@ private theorem decSplines_le (bs : Bytes) (vs : List Val) (r : Bytes) (h : decS
           have b := iterDec_le (decTuple [.u32]) (fun bs v r hh => decTuple_le _ bs v r hh) k r1 ps r2 h2
           rw [← h.2]; omega
 
+private theorem decU32V_le (bs : Bytes) (v : Val) (r : Bytes) (h : decU32V bs = .ok (v, r)) : r.length ≤ bs.length := by
+  simp only [decU32V] at h
+  cases hd : decInt 4 .le bs with
+  | error x => simp [hd] at h
+  | ok p => obtain ⟨m, r'⟩ := p; simp only [hd, Except.ok.injEq, Prod.mk.injEq] at h; rw [← h.2]; exact decInt_le 4 .le bs r' m hd
+
+private theorem decUpdateMask_le (bs : Bytes) (v : Val) (r : Bytes) (h : decUpdateMask bs = .ok (v, r)) : r.length ≤ bs.length := by
+  simp only [decUpdateMask] at h
+  cases h0 : decInt 1 .le bs with
+  | error x => simp [h0] at h
+  | ok p =>
+    obtain ⟨n, r0⟩ := p
+    have a0 := decInt_le 1 .le bs r0 n h0
+    cases h1 : iterDec decU32V n r0 with
+    | error x => simp [h0, h1] at h
+    | ok q =>
+      obtain ⟨masks, r1⟩ := q
+      cases h2 : iterDec decU32V (umCount masks) r1 with
+      | error x => simp [h0, h1, h2] at h
+      | ok q2 =>
+        obtain ⟨values, r2⟩ := q2
+        simp only [h0, h1, h2] at h
+        split at h
+        · simp only [Except.ok.injEq, Prod.mk.injEq] at h
+          have a := iterDec_le decU32V decU32V_le n r0 masks r1 h1
+          have b := iterDec_le decU32V decU32V_le (umCount masks) r1 values r2 h2
+          rw [← h.2]; omega
+        · cases h
+
 theorem decPrim_no_growth (name : String) (bs r : Bytes) (v : Val) (h : decPrim name bs = .ok (v, r)) : r.length ≤ bs.length := by
   unfold decPrim at h
   cases hk : primKind name with
@@ -208,6 +237,7 @@ theorem decPrim_no_growth (name : String) (bs r : Bytes) (v : Val) (h : decPrim 
     cases h1 : decSplines bs with
     | error x => simp [h1] at h
     | ok q => obtain ⟨vs, r1⟩ := q; simp only [h1, Except.ok.injEq, Prod.mk.injEq] at h; rw [← h.2]; exact decSplines_le bs vs r1 h1
+  | updateMask => simp only [hk] at h; exact decUpdateMask_le bs v r h
   | other => simp [hk] at h
 
 theorem decLeaf_no_growth (l : Leaf) (bs r : Bytes) (v : Val) (h : decLeaf l bs = .ok (v, r)) : r.length ≤ bs.length := by
